@@ -194,6 +194,12 @@ impl<'a> DiagnosticContext<'a> {
             ..Default::default()
         };
 
+        // the list of a file never holds the exact same diagnostic twice
+        // (e.g. a parse error recorded on two recovery paths of the parser)
+        if self.diagnostics.contains(&diagnostic) {
+            return;
+        }
+
         self.diagnostics.push(diagnostic);
     }
 
